@@ -167,15 +167,42 @@ theorem counter_name_as_written (rawName : String) (toks : List ATok) (p : Parse
             | (simp only [Option.some.injEq] at h; subst h; simp [Parsed.counterName] at hn; done)
             | (simp only [Option.some.injEq] at h; subst h; simp [Parsed.counterName] at hn; subst hn
                exact back (by simp))
+            | (simp only [Option.map_eq_some_iff] at h; obtain ⟨s, _, h⟩ := h; subst h
+               simp [Parsed.counterName] at hn; subst hn; exact back (by simp))
 
 /-- `target-counter(link, name, style)` with or without commas: the name as written, the style lower-cased. -/
 theorem target_counter_shape (n st : String) :
     targetFn "target-counter" [.str "#t", .comma, .ident n, .comma, .ident st] =
-      some (.targetCounter (.str "#t") n (some (lowerAscii st))) ∧
+      some (.targetCounter (.str "#t") n (lowerAscii st)) ∧
     targetFn "target-counter" [.str "#t", .ident n, .ident st] =
-      some (.targetCounter (.str "#t") n (some (lowerAscii st))) := by
+      some (.targetCounter (.str "#t") n (lowerAscii st)) := by
   constructor <;>
     simp [targetFn, parseArgs, splitOnOptionalComma, splitOnComma, joinParts, linkOf, keyword?]
+
+/-- **C15.target_counter_style_named** (since `fix:` 9677ed2; the style used to be Python `None` for a string,
+`symbols()` or number argument, finding `target-counter-non-ident-style-crash`): the third argument of an
+accepted `target-counter()` — the fourth of `target-counters()` — is an identifier, and the item carries its
+lower-cased name; with the type `style : String` every accepted item names a counter style. -/
+theorem target_counter_style_named (link : ATok) (n : String) (st : ATok) (p : Parsed)
+    (h : targetFn "target-counter" [link, .ident n, st] = some p) (hst : st ≠ .comma) (hl : link ≠ .comma) :
+    ∃ l v, linkOf link = some l ∧ st = .ident v ∧ p = .targetCounter l n (lowerAscii v) := by
+  have hp : parseArgs [link, .ident n, st] false [] = some [link, .ident n, st] := by
+    cases link <;> cases st <;> simp_all [parseArgs]
+  have hs : splitOnOptionalComma [link, .ident n, st] = some [link, .ident n, st] := by
+    cases link <;> cases st <;> simp_all [splitOnOptionalComma, splitOnComma, joinParts]
+  simp only [targetFn, hp, hs] at h
+  cases hlk : linkOf link with
+  | none => simp [hlk] at h
+  | some l =>
+    cases st with
+    | ident v =>
+      simp [hlk, keyword?] at h
+      exact ⟨l, v, rfl, rfl, h.symm⟩
+    | str v => simp [hlk, keyword?] at h
+    | url v => simp [hlk, keyword?] at h
+    | attr => simp [hlk, keyword?] at h
+    | comma => exact absurd rfl hst
+    | other => simp [hlk, keyword?] at h
 
 /-- `counter(name, style)`: both as written (`list_style_type` keeps the identifier). -/
 theorem counter_shape (n st : String) :
@@ -184,10 +211,11 @@ theorem counter_shape (n st : String) :
 
 /-! Non-vacuity -/
 example : contentFn "target-counter" [.attr, .comma, .ident "chapterNum", .comma, .ident "UPPER-ROMAN"] =
-    some (.targetCounter .attr "chapterNum" (some "upper-roman")) := by decide
+    some (.targetCounter .attr "chapterNum" "upper-roman") := by decide
 example : contentFn "Target-Counters" [.url "#Sec", .ident "Sec", .str "."] =
-    some (.targetCounters (.internal "Sec") "Sec" "." (some "decimal")) := by decide
+    some (.targetCounters (.internal "Sec") "Sec" "." "decimal") := by decide
 example : contentFn "COUNTER" [.ident "c"] = none := by decide
+example : contentFn "target-counter" [.str "#t", .comma, .ident "c", .comma, .str "x"] = none := by decide
 example : contentFn "counters" [.ident "Sec", .comma, .str "-", .comma, .str "*"] =
     some (.counters "Sec" "-" (.str "*")) := by decide
 example : contentFn "target-counter" [.str "#t", .comma, .comma, .ident "c"] = none := by decide
